@@ -966,6 +966,45 @@ theorem ecdsa_correct {Pt : Type} {O : Ops Pt} (hL : Laws O) (lowS : Bool) {d k 
         rw [w_mul_e hn hks hws, hL.mulBase_mod, hx]
         simp
 
+theorem k256_n_pos : 0 < Ec.k256.n := by decide
+theorem k256_half_lt : Ec.k256.n / 2 < 256 ^ 32 := by decide
+
+/-- what `signRSBytes` returns comes out of `signRS` for a valid secret scalar and an in-range nonce -/
+theorem signRSBytes_elim {S : Suite} {reduce : Bool} {sk m : Bytes} {r s : Nat} (h : signRSBytes S reduce sk m = some (r, s)) :
+    ∃ d k, S.secretScalar sk = some d ∧ 1 ≤ k ∧ k < S.curve.n ∧
+      signRS (ops S.curve) S.lowS d k (bits2int S.params (S.digest m) % S.curve.n) = some (r, s) := by
+  unfold signRSBytes at h
+  split at h
+  · cases h
+  · rename_i d hd
+    dsimp only at h
+    split at h
+    · cases h
+    · rename_i k hk
+      have hr := generateK_range _ _ _ _ _ hk
+      exact ⟨d, k, hd, hr.1, hr.2, h⟩
+
+/-- low-S suites: 1 ≤ s ≤ ⌊n/2⌋ -/
+theorem signRSBytes_lowS {S : Suite} (hlow : S.lowS = true) (hn : 0 < S.curve.n) {reduce : Bool} {sk m : Bytes} {r s : Nat}
+    (h : signRSBytes S reduce sk m = some (r, s)) : 1 ≤ s ∧ s ≤ S.curve.n / 2 := by
+  obtain ⟨d, k, _, _, _, hs⟩ := signRSBytes_elim h
+  rw [hlow] at hs
+  exact ⟨(signRS_range (ops S.curve) hn _ _ _ _ _ _ hs).2.1, signRS_lowS (ops S.curve) _ _ _ _ _ hs⟩
+
+/-- the s half of the encoded signature is the number s, when it fits the width -/
+theorem sign_s_half {S : Suite} {reduce : Bool} {sk m sig : Bytes} (h : sign S reduce sk m = some sig) :
+    ∃ r s, signRSBytes S reduce sk m = some (r, s) ∧ os2ip (sig.drop S.curve.len) = s % 256 ^ S.curve.len := by
+  unfold sign at h
+  cases hrs : signRSBytes S reduce sk m with
+  | none => rw [hrs] at h; cases h
+  | some rs =>
+    obtain ⟨r, s⟩ := rs
+    rw [hrs] at h
+    cases h
+    refine ⟨r, s, rfl, ?_⟩
+    have hl : (i2osp S.curve.len r).length = S.curve.len := i2osp_length _ _
+    rw [List.drop_append_of_le_length (by omega), List.drop_of_length_le (by omega), List.nil_append, os2ip_i2osp]
+
 /-! a group in which the laws hold (non-vacuity of `Laws`): Z/7 written additively, generator 1, "x-coordinate" of a ≠ 0 the smaller of a, 7 − a -/
 
 def toyX (a : Nat) : Option Nat := if a % 7 = 0 then none else some (if a % 7 ≤ 3 then a % 7 else 7 - a % 7)
